@@ -58,9 +58,11 @@ struct Node {
 };
 
 constexpr int INT_LO = -2, INT_HI = 6;  // value domain of int, inclusive
-constexpr int NPOOL = 12, NPAT = 10;
+constexpr int NPOOL = 12, NPAT = 14;
 const char* const POOL[NPOOL] = {"", "a", "A", "ab", "abc", "ABC", "b", "foo", "Foo", "barfoo", "a.c", "abcabc"};
-const char* const PATS[NPAT] = {"a", "^a", "c$", "^abc$", "a.c", "a\\.c", "fo+", "^$", "[A-Z]", "(abc)+$"};
+const char* const PATS[NPAT] = {"a", "^a", "c$", "^abc$", "a.c", "a\\.c", "fo+", "^$", "[A-Z]", "(abc)+$",
+                                 // a back-reference, an optional group, a counted repeat, a word boundary
+                                 "^(abc)\\1$", "^(a)(b)?c?$", "o{2}$", "\\bfoo"};
 
 bool is_ptr_dom(Dom d) { return d == D_PINT || d == D_UPINT || d == D_SPINT || d == D_PS || d == D_HND || d == D_NHND || d == D_CPINT; }
 Dom pointee_dom(Dom d) { return d == D_PS ? D_S : D_INT; }
